@@ -128,6 +128,13 @@ func (fx *FX) computeLabels() {
 			ls.val[fv], ls.mem[fv] = label{usr: true}, label{usr: true}
 		}
 	}
+	for i, p := range fn.Params {
+		if i < len(fx.presetLabels) {
+			ls.val[p] = ls.val[p].join(fx.presetLabels[i])
+			ls.mem[p] = ls.mem[p].join(fx.presetLabels[i])
+		}
+	}
+	var codeRefs []*ssa.DebugRef
 	// the same convention for local variables (bindings that read their value from outside the function, as the
 	// WebAssembly binding does from its JS arguments): a local named secret/secretBuf holds the secret, one named code the submitted code
 	for _, b := range fn.Blocks {
@@ -141,7 +148,13 @@ func (fx *FX) computeLabels() {
 				case "secret", "secretBuf", "secretStr":
 					l = label{key: true}
 				case "code":
-					l = label{usr: true}
+					// decided after the first fixpoint: only a local that is not itself derived from the secret
+					// (a generated code is often called code too) is the submitted code
+					// (submitted codes are text: an integer local called code, as in truncate, is not one)
+					if isTextType(d.X.Type(), d.IsAddr) {
+						codeRefs = append(codeRefs, d)
+					}
+					continue
 				default:
 					continue
 				}
@@ -192,87 +205,108 @@ func (fx *FX) computeLabels() {
 		// a pointer obtained from a labelled value carries the label; so does a field address labelled by its name
 		return l.join(get(r)).join(get(addr)).join(ls.mem[addr])
 	}
-	for iter := 0; changed && iter < 50; iter++ {
-		changed = false
-		for _, b := range fn.Blocks {
-			for _, in := range b.Instrs {
-				switch x := in.(type) {
-				case *ssa.Phi:
-					var l label
-					for _, e := range x.Edges {
-						l = l.join(get(e))
-					}
-					set(x, l)
-				case *ssa.BinOp:
-					set(x, get(x.X).join(get(x.Y)))
-				case *ssa.UnOp:
-					if x.Op == token.MUL {
-						set(x, memOf(x.X))
-					} else {
+	fix := func() {
+		for iter := 0; changed && iter < 50; iter++ {
+			changed = false
+			for _, b := range fn.Blocks {
+				for _, in := range b.Instrs {
+					switch x := in.(type) {
+					case *ssa.Phi:
+						var l label
+						for _, e := range x.Edges {
+							l = l.join(get(e))
+						}
+						set(x, l)
+					case *ssa.BinOp:
+						set(x, get(x.X).join(get(x.Y)))
+					case *ssa.UnOp:
+						if x.Op == token.MUL {
+							set(x, memOf(x.X))
+						} else {
+							set(x, get(x.X))
+						}
+					case *ssa.Convert:
 						set(x, get(x.X))
-					}
-				case *ssa.Convert:
-					set(x, get(x.X))
-				case *ssa.ChangeType:
-					set(x, get(x.X))
-				case *ssa.ChangeInterface:
-					set(x, get(x.X))
-				case *ssa.MakeInterface:
-					set(x, get(x.X))
-				case *ssa.TypeAssert:
-					set(x, get(x.X))
-				case *ssa.Extract:
-					set(x, get(x.Tuple))
-				case *ssa.Slice:
-					set(x, get(x.X).join(memOf(x.X)))
-				case *ssa.IndexAddr:
-					set(x, get(x.X))
-				case *ssa.FieldAddr:
-					set(x, get(x.X))
-					if st, ok := x.X.Type().Underlying().(*types.Pointer).Elem().Underlying().(*types.Struct); ok {
-						switch st.Field(x.Field).Name() {
-						case "Secret", "RawQuery":
-							set(x, label{key: true}) // a field named Secret carries the shared secret; so does a URL's raw query
-							setMem(x, label{key: true})
-						case "Code":
-							set(x, label{usr: true})
-							setMem(x, label{usr: true})
+					case *ssa.ChangeType:
+						set(x, get(x.X))
+					case *ssa.ChangeInterface:
+						set(x, get(x.X))
+					case *ssa.MakeInterface:
+						set(x, get(x.X))
+					case *ssa.TypeAssert:
+						set(x, get(x.X))
+					case *ssa.Extract:
+						set(x, get(x.Tuple))
+					case *ssa.Slice:
+						set(x, get(x.X).join(memOf(x.X)))
+					case *ssa.IndexAddr:
+						set(x, get(x.X))
+					case *ssa.FieldAddr:
+						set(x, get(x.X))
+						if st, ok := x.X.Type().Underlying().(*types.Pointer).Elem().Underlying().(*types.Struct); ok {
+							switch st.Field(x.Field).Name() {
+							case "Secret", "RawQuery":
+								set(x, label{key: true}) // a field named Secret carries the shared secret; so does a URL's raw query
+								setMem(x, label{key: true})
+							case "Code":
+								set(x, label{usr: true})
+								setMem(x, label{usr: true})
+							}
 						}
-					}
-				case *ssa.Field:
-					set(x, get(x.X))
-					if st, ok := x.X.Type().Underlying().(*types.Struct); ok {
-						switch st.Field(x.Field).Name() {
-						case "Secret":
-							set(x, label{key: true})
-						case "Code":
-							set(x, label{usr: true})
+					case *ssa.Field:
+						set(x, get(x.X))
+						if st, ok := x.X.Type().Underlying().(*types.Struct); ok {
+							switch st.Field(x.Field).Name() {
+							case "Secret":
+								set(x, label{key: true})
+							case "Code":
+								set(x, label{usr: true})
+							}
 						}
+					case *ssa.MapUpdate:
+						setMem(rootOf(x.Map), get(x.Key).join(get(x.Value)))
+					case *ssa.Index:
+						set(x, get(x.X))
+					case *ssa.Lookup:
+						set(x, get(x.X).join(get(x.Index)))
+					case *ssa.Store:
+						setMem(rootOf(x.Addr), get(x.Val))
+					case *ssa.MakeClosure:
+						var l label
+						for _, bnd := range x.Bindings {
+							l = l.join(get(bnd)).join(memOf(bnd))
+						}
+						set(x, l)
+					case *ssa.Range:
+						set(x, get(x.X))
+					case *ssa.Next:
+						set(x, get(x.Iter))
+					case ssa.CallInstruction:
+						fx.labelCallInstr(x, get, memOf, set, setMem)
 					}
-				case *ssa.MapUpdate:
-					setMem(rootOf(x.Map), get(x.Key).join(get(x.Value)))
-				case *ssa.Index:
-					set(x, get(x.X))
-				case *ssa.Lookup:
-					set(x, get(x.X).join(get(x.Index)))
-				case *ssa.Store:
-					setMem(rootOf(x.Addr), get(x.Val))
-				case *ssa.MakeClosure:
-					var l label
-					for _, bnd := range x.Bindings {
-						l = l.join(get(bnd)).join(memOf(bnd))
-					}
-					set(x, l)
-				case *ssa.Range:
-					set(x, get(x.X))
-				case *ssa.Next:
-					set(x, get(x.Iter))
-				case ssa.CallInstruction:
-					fx.labelCallInstr(x, get, memOf, set, setMem)
 				}
 			}
 		}
 	}
+	fix()
+	for _, d := range codeRefs {
+		l := label{usr: true}
+		if d.IsAddr {
+			r := rootOf(d.X)
+			if !ls.mem[r].secret() && !ls.val[r].secret() {
+				ls.mem[r] = ls.mem[r].join(l)
+				changed = true
+			}
+		} else if !ls.val[d.X].secret() {
+			ls.val[d.X] = ls.val[d.X].join(l)
+			switch d.X.Type().Underlying().(type) {
+			case *types.Slice, *types.Pointer:
+				ls.mem[rootOf(d.X)] = ls.mem[rootOf(d.X)].join(l)
+			}
+			changed = true
+		}
+	}
+	fix()
 }
 
 func (fx *FX) labelCallInstr(ci ssa.CallInstruction, get func(ssa.Value) label, memOf func(ssa.Value) label, set func(ssa.Value, label), setMem func(ssa.Value, label)) {
@@ -412,7 +446,90 @@ func (fx *FX) byteCompareCheck(st *State, x *ssa.BinOp) {
 		return
 	}
 	bad := (la.secret() && lb.usr) || (la.usr && lb.secret())
+	// a value that already mixes both (e.g. an accumulated XOR of the two) may be tested once at the end, as a
+	// constant-time comparison does, but not inside a loop, where the test decides whether more bytes are looked at
+	mixed := (la.secret() && la.usr) || (lb.secret() && lb.usr)
+	if mixed && blockInLoop(x.Block()) {
+		bad = true
+	}
 	fx.trivial("taint:compare", "", !bad, x.Pos(), "early-exit comparison of secret-derived bytes with the submitted code")
+}
+
+// blockInLoop: the block lies on a cycle of its function's control-flow graph.
+func blockInLoop(b *ssa.BasicBlock) bool {
+	seen := map[*ssa.BasicBlock]bool{}
+	var walk func(c *ssa.BasicBlock) bool
+	walk = func(c *ssa.BasicBlock) bool {
+		for _, s := range c.Succs {
+			if s == b {
+				return true
+			}
+			if !seen[s] {
+				seen[s] = true
+				if walk(s) {
+					return true
+				}
+			}
+		}
+		return false
+	}
+	return walk(b)
+}
+
+// calleeCompareScan: a contract-less in-unit function that receives secret-derived and caller-supplied data together
+// (and is not subtle.ConstantTimeCompare) is scanned with those labels on its parameters; an early-exit comparison
+// inside it is reported at the call site.
+func (fx *FX) calleeCompareScan(callee *ssa.Function, c *ssa.CallCommon, pos token.Pos, depth int) {
+	if fx.labels == nil || callee == nil || len(callee.Blocks) == 0 || depth > 3 || !fx.u.internal(callee) {
+		return
+	}
+	if ld := fx.u.labelDecl(callee); ld != nil && len(ld.Params) > 0 {
+		return // analysed on its own account under its declared labels
+	}
+	var ls []label
+	var all label
+	for _, a := range c.Args {
+		l := fx.lab(a)
+		switch a.Type().Underlying().(type) {
+		case *types.Slice, *types.Pointer:
+			l = l.join(fx.labMem(a))
+		}
+		ls = append(ls, l)
+		all = all.join(l)
+	}
+	if !(all.secret() && all.usr) {
+		return
+	}
+	tmp := &FX{u: fx.u, fn: callee, fc: fx.u.contractOf(callee), presetLabels: ls}
+	tmp.computeLabels()
+	for _, b := range callee.Blocks {
+		for _, in := range b.Instrs {
+			switch x := in.(type) {
+			case *ssa.BinOp:
+				switch x.Op {
+				case token.EQL, token.NEQ, token.LSS, token.LEQ, token.GTR, token.GEQ:
+					la, lb := tmp.lab(x.X), tmp.lab(x.Y)
+					bad := (la.secret() && lb.usr) || (la.usr && lb.secret())
+					if ((la.secret() && la.usr) || (lb.secret() && lb.usr)) && blockInLoop(b) {
+						bad = true
+					}
+					if bad {
+						fx.trivial("taint:compare", "", false, pos, "the callee "+callee.Name()+" compares secret-derived data with the submitted code with an early exit")
+						return
+					}
+				}
+			case ssa.CallInstruction:
+				if cal := x.Common().StaticCallee(); cal != nil && cal != callee {
+					tmp.calleeCompareScan(cal, x.Common(), pos, depth+1)
+					if len(tmp.obls) > 0 {
+						fx.obls = append(fx.obls, tmp.obls...)
+						tmp.obls = nil
+						return
+					}
+				}
+			}
+		}
+	}
 }
 
 // mapCompareCheck: a map lookup compares its key with the stored keys by an early-exit equality: a lookup
@@ -487,4 +604,22 @@ func (u *Unit) intrinsicResult(fn *ssa.Function) label {
 	}
 	u.intrinsic[fn] = &l
 	return l
+}
+
+// isTextType: string or []byte (or, for an address, a pointer to one of them).
+func isTextType(t types.Type, addr bool) bool {
+	if addr {
+		if p, ok := t.Underlying().(*types.Pointer); ok {
+			t = p.Elem()
+		}
+	}
+	switch u := t.Underlying().(type) {
+	case *types.Basic:
+		return u.Info()&types.IsString != 0
+	case *types.Slice:
+		if b, ok := u.Elem().Underlying().(*types.Basic); ok {
+			return b.Kind() == types.Uint8
+		}
+	}
+	return false
 }
